@@ -46,6 +46,21 @@ def gen_cases(ctx):
                     start += flen
                 cases.append(Case("%s_p%d_pre%d_%d" % (ind, p, mult, len(cases)), [new_op(0, ind, pr)] + pre + fl, dump=(),
                                   meta={"ind": ind, "p": pp, "npre": npre, "flen": flen, "lvl": lvl, "bars": bars, "vol": vol, "stretches": stretches}))
+    # flat stretches long enough for the exponential averages to underflow (the 0.1 seeds of RSI reach the subnormals after
+    # ~700 (n=2) ... ~5000 (n=14) equal inputs): from fresh and after activity
+    for ind in ("RSI", "EMA", "SLOW", "MACD", "PPO", "ATR", "KC"):
+        for p, flen in [(1, 40), (2, 900), (3, 1300), (4, 1700), (6, 2400), (14, 5400)]:
+            if flen > 2500 and ind != "RSI" and not ctx.thorough:
+                continue
+            for npre in (0, 5):
+                k = nper(ind)
+                pr = (p if k >= 1 else 0, p if k >= 2 else 0, 2 if k >= 3 else 0, 2.0 if ind in HAS_MULT else 0.0)
+                lvl = r.choice([7.0, 37.3, 0.01, 1e6])
+                pre = [("n", 0, x * lvl) for x in scalar_stream(r, npre, "walk", p=p, positive=True)]
+                fl = [("n", 0, lvl)] * flen
+                cases.append(Case("L_%s_p%d_pre%d" % (ind, p, npre), [new_op(0, ind, pr)] + pre + fl, dump=(),
+                                  meta={"ind": ind, "p": p, "npre": npre, "flen": flen, "lvl": lvl, "bars": False, "vol": 0.0,
+                                        "stretches": [(npre, flen, lvl)]}))
     return cases
 
 
@@ -101,6 +116,10 @@ def check_impl(ctx, cases):
                     pass
             if bad:
                 key = {"indicator": ind, "class": "degenerate-window", "kind": kind}
+                if ind == "RSI":
+                    # K4 is specific: with n <= 3 the decay factor 1 - 2/(n+1) is at most 1/2, so the two averages reach exactly 0;
+                    # from n = 4 on they stick at the smallest subnormal and the ratio stays 50: a NaN there is a different failure
+                    key["periods"] = "n<=3" if p <= 3 else "n>=4"
                 out.append(Violation("%s(%d) on a flat window (level %g, %d flat inputs after %d active ones) %s" % (ind, p, lvl, j + 1, npre, bad),
                                      case=Case(c.cid + "_cut", c.ops[:t + 1], dump=(), meta=c.meta), finding_key=key))
                 break
@@ -109,7 +128,7 @@ def check_impl(ctx, cases):
     seen = set()
     uniq = []
     for v in out:
-        k = (v.finding_key["indicator"], v.finding_key["kind"])
+        k = (v.finding_key["indicator"], v.finding_key["kind"], v.finding_key.get("periods"))
         if k not in seen:
             seen.add(k)
             uniq.append(v)
